@@ -300,7 +300,31 @@ def check_setter(chk, prog, f):
     if not gen and f.name not in SETTERS:
         return False
     cfg = nullness.prepared_cfg(f, NORETURN)
-    rel = [c for c in X.calls_in(f.body) if own.release_kind(c) in ("del",) and c["ch"][1:] and self_field(c["ch"][1]) == fld]
+    # locals that hold the previous value: assigned exactly once, from self->F, before the store
+    defs = {}
+    for x in walk(f.body):
+        if x.get("k") == "assign":
+            l = X.strip(x["ch"][0])
+            if l.get("k") == "ref" and l.get("rk") == "local":
+                defs.setdefault(l["d"], []).append((x, x["ch"][1] if x.get("op") == "=" else None))
+        elif x.get("k") == "decl":
+            for dcl in x.get("decls", ()):
+                if dcl.get("init") is not None:
+                    defs.setdefault(dcl["d"], []).append((x, dcl["init"]))
+    prev = {d: ds[0][0] for d, ds in defs.items() if len(ds) == 1 and ds[0][1] is not None and self_field(ds[0][1]) == fld}
+
+    def releases_previous(c):
+        if own.release_kind(c) not in ("del",) or not c["ch"][1:]:
+            return False
+        a = c["ch"][1]
+        if self_field(a) == fld:
+            return True
+        a = X.strip(a)
+        if a is not None and a.get("k") == "ref" and a.get("d") in prev and cfg is not None:
+            dn = prev[a["d"]]
+            return cfg.node_dominates(dn["i"], c["i"]) and cfg.node_dominates(dn["i"], n["i"]) and not cfg.node_dominates(n["i"], dn["i"])
+        return False
+    rel = [c for c in X.calls_in(f.body) if releases_previous(c)]
     # the release must be able to precede the store: it is in a block that reaches the store
     ok = bool(rel)
     chk.ob("O8", f.name, "setter-releases-previous:" + fld, ok, loc=f.loc(n),
